@@ -34,6 +34,24 @@
 //     different aggregation / filter, and two identities that would look the
 //     same in the output, are NOT generated (and not asserted when replayed):
 //     the statement does not say which definition wins.
+//   - "a cardinality limit L" is configured through OTEL_GO_X_CARDINALITY_LIMIT,
+//     documented as "the integer limit value" / "The value must be an integer
+//     value. All other values are ignored. If the value set is less than or
+//     equal to 0, no limit will be applied": an optional sign followed by
+//     decimal digits is that integer whatever the number of leading zeros
+//     (010 is ten); a value no reading takes for an integer (abc, 1.5, 5x) means
+//     no limit. Spellings the documentation leaves open (0x10, 1_000, 1e3, 2.0,
+//     surrounding blanks) are not generated.
+//   - an instrument requested twice from one meter (identically, or with its
+//     name in another case: names are case-insensitive) is ONE instrument: one
+//     stream, one set table, one limit; measurements made through either
+//     handle are counted once. Only generated for synchronous instruments.
+//   - "one collection" is what a Collect call leaves in the ResourceMetrics it
+//     was given, also when the caller passes the same ResourceMetrics again.
+//
+// Sub-checks: limit_model, views_model (this file), limit_wide (wide_test.go:
+// hundreds to thousands of sets, limits next to the number of sets),
+// limit_concurrent (conc_test.go).
 package c12
 
 import (
@@ -268,6 +286,53 @@ type syncInst struct {
 	recF func(context.Context, float64, ...metric.RecordOption)
 }
 
+// newSync asks the meter for a synchronous instrument.
+func newSync(meter metric.Meter, name string, in Inst) (s syncInst, err error) {
+	switch {
+	case in.Kind == kCounter && !in.Float:
+		var x metric.Int64Counter
+		if x, err = meter.Int64Counter(name, metric.WithUnit(in.Unit)); x != nil {
+			s.addI = x.Add
+		}
+	case in.Kind == kCounter:
+		var x metric.Float64Counter
+		if x, err = meter.Float64Counter(name, metric.WithUnit(in.Unit)); x != nil {
+			s.addF = x.Add
+		}
+	case in.Kind == kUpDown && !in.Float:
+		var x metric.Int64UpDownCounter
+		if x, err = meter.Int64UpDownCounter(name, metric.WithUnit(in.Unit)); x != nil {
+			s.addI = x.Add
+		}
+	case in.Kind == kUpDown:
+		var x metric.Float64UpDownCounter
+		if x, err = meter.Float64UpDownCounter(name, metric.WithUnit(in.Unit)); x != nil {
+			s.addF = x.Add
+		}
+	case in.Kind == kHist && !in.Float:
+		var x metric.Int64Histogram
+		if x, err = meter.Int64Histogram(name, metric.WithUnit(in.Unit)); x != nil {
+			s.recI = x.Record
+		}
+	case in.Kind == kHist:
+		var x metric.Float64Histogram
+		if x, err = meter.Float64Histogram(name, metric.WithUnit(in.Unit)); x != nil {
+			s.recF = x.Record
+		}
+	case in.Kind == kGauge && !in.Float:
+		var x metric.Int64Gauge
+		if x, err = meter.Int64Gauge(name, metric.WithUnit(in.Unit)); x != nil {
+			s.recI = x.Record
+		}
+	case in.Kind == kGauge:
+		var x metric.Float64Gauge
+		if x, err = meter.Float64Gauge(name, metric.WithUnit(in.Unit)); x != nil {
+			s.recF = x.Record
+		}
+	}
+	return s, err
+}
+
 func run(c Case) ([]vk.Violation, vk.Info) {
 	c = normalize(c)
 	var vs []vk.Violation
@@ -473,6 +538,30 @@ func run(c Case) ([]vk.Violation, vk.Info) {
 			info.Class("instrument_with_incompatible_view")
 		}
 	}
+	// second handles of instruments the program requests twice
+	syncs2 := make([]syncInst, len(c.Insts))
+	for i, in := range c.Insts {
+		if in.Again == 0 || observable(in.Kind) {
+			continue
+		}
+		name := instName(i)
+		if in.Again == 2 {
+			name = strings.ToUpper(name)
+		}
+		expectErr := false
+		for _, v := range c.Views {
+			if v.Incompat && v.matches(i, in) && !aggCompatible(v.Agg, in.Kind) {
+				expectErr = true
+			}
+		}
+		s2, err := newSync(meter, name, in)
+		if err != nil && !expectErr {
+			bad("setup_error", "requesting %s %s a second time: %v", kindNames[in.Kind], name, err)
+			return vs, info
+		}
+		syncs2[i] = s2
+		info.Class(fmt.Sprintf("instrument_requested_twice/%d", in.Again))
+	}
 	if c.MultiCB && len(allObs) > 0 {
 		reg, err := meter.RegisterCallback(func(_ context.Context, o metric.Observer) error {
 			for i := range c.Insts {
@@ -498,12 +587,17 @@ func run(c Case) ([]vk.Violation, vk.Info) {
 	collections := 0
 	var retainedRM []*metricdata.ResourceMetrics
 	var retainedFP, retainedAt []string
-	skippedCollect := false
+	skippedCollect, secondHandleUsed := false, false
+	reused := make([]*metricdata.ResourceMetrics, len(readers))
 	for ci := range c.Cycles {
 		cy := &c.Cycles[ci]
 		for _, op := range cy.Ops {
 			in := c.Insts[op.Inst]
 			s := syncs[op.Inst]
+			if op.H && in.Again != 0 {
+				s = syncs2[op.Inst]
+				secondHandleUsed = true
+			}
 			o := metric.WithAttributeSet(sets[op.Set])
 			switch {
 			case s.addI != nil:
@@ -545,15 +639,26 @@ func run(c Case) ([]vk.Violation, vk.Info) {
 			}
 			// each collection gets its own ResourceMetrics, which is kept: what
 			// a Collect returned must not change when more is measured/collected
+			// ... unless the reader reuses one ResourceMetrics for all its
+			// collections: then each Collect must replace what the last one left
 			rmp := &metricdata.ResourceMetrics{}
+			reuse := r < len(c.Reuse) && c.Reuse[r]
+			if reuse {
+				if reused[r] == nil {
+					reused[r] = rmp
+				}
+				rmp = reused[r]
+			}
 			if err := rd.Collect(ctx, rmp); err != nil {
 				bad("setup_error", "cycle %d reader %d: Collect: %v", ci, r, err)
 				return vs, info
 			}
 			rm := *rmp
-			retainedRM = append(retainedRM, rmp)
-			retainedFP = append(retainedFP, fmt.Sprintf("%+v", rmp.ScopeMetrics))
-			retainedAt = append(retainedAt, fmt.Sprintf("cycle %d reader %d", ci, r))
+			if !reuse {
+				retainedRM = append(retainedRM, rmp)
+				retainedFP = append(retainedFP, fmt.Sprintf("%+v", rmp.ScopeMetrics))
+				retainedAt = append(retainedAt, fmt.Sprintf("cycle %d reader %d", ci, r))
+			}
 			collections++
 			got, err := readMetrics(&rm)
 			if err != nil {
@@ -667,7 +772,20 @@ func run(c Case) ([]vk.Violation, vk.Info) {
 		info.ClassIf(n > 0 && (v.ByKind || v.ByUnit) && v.NameMode != nmNone, "view_by_combined_criteria")
 		info.ClassIf(n > 0 && v.Unit != "", "view_changes_unit")
 	}
-	info.Class("limit/" + map[bool]string{true: c.Env, false: "unlimited"}[limit > 0])
+	switch {
+	case limit <= 0:
+		info.Class("limit/unlimited")
+	case limit <= 12:
+		info.Class(fmt.Sprintf("limit/%d", limit))
+	case limit <= 33:
+		info.Class("limit/13..33")
+	default:
+		info.Class("limit/>33(never reached)")
+	}
+	sp := envSpelling(c.Env)
+	info.Class("limit_spelling/" + sp)
+	info.ClassIf(limit > 0 && sp != "canonical" && overflow, "limit_spelling/"+sp+"/with_overflow")
+	info.ClassIf(limit >= 8 && limit <= 33 && overflow, "limit_8..33_with_overflow")
 	info.ClassIf(len(c.Readers) == 2, "two_readers")
 	info.ClassIf(len(c.Selectors) > 0, "reader_aggregation_selector")
 	if len(models) == 2 {
@@ -680,7 +798,17 @@ func run(c Case) ([]vk.Violation, vk.Info) {
 			}
 		}
 	}
+	typed := false
+	for _, set := range c.Pool {
+		for _, kv := range set {
+			typed = typed || kv.T == "float" || len(kv.T) > 4 || (kv.K == "zz" && kv.T == "str")
+		}
+	}
+	info.ClassIf(typed, "pool_with_float/slice/type-only_near_miss_values")
 	info.ClassIf(skippedCollect, "reader_skips_a_cycle")
+	info.ClassIf(secondHandleUsed, "measurements_through_both_handles_of_one_instrument")
+	info.ClassIf(len(c.Reuse) > 0, "reader_reuses_one_ResourceMetrics")
+	info.ClassIf(len(c.Reuse) > 0 && overflow, "reader_reuses_one_ResourceMetrics/with_overflow")
 	info.ClassIf(c.MultiCB && len(allObs) > 0, "multi_instrument_callback")
 	info.ClassIf(collections >= 3, "collections>=3")
 	info.NonTrivial = overflow || merge || multiView
@@ -734,7 +862,7 @@ func compare(where string, m *readerModel, got []gotMetric, limit int, bad func(
 		}
 		if len(pts) == 0 {
 			if len(exp) > 0 {
-				bad("stream_missing", "%s: not reported, model has %d points %v", desc, len(exp), keysOf(exp))
+				bad("stream_missing", "%s: not reported, model has %d points %s", desc, len(exp), firstFew(keysOf(exp)))
 			}
 			continue
 		}
@@ -792,7 +920,7 @@ func compare(where string, m *readerModel, got []gotMetric, limit int, bad func(
 		if len(missing)+len(extra) > 0 {
 			sort.Strings(missing)
 			sort.Strings(extra)
-			bad("attribute_sets", "%s: reported sets differ from the rule: missing %v, unexpected %v", desc, missing, extra)
+			bad("attribute_sets", "%s: reported sets differ from the rule: missing %s, unexpected %s", desc, firstFew(missing), firstFew(extra))
 			continue
 		}
 		for _, k := range keysOf(exp) {
@@ -823,6 +951,14 @@ func compare(where string, m *readerModel, got []gotMetric, limit int, bad func(
 	}
 }
 
+// firstFew renders a (sorted) list, cut after eight entries.
+func firstFew(l []string) string {
+	if len(l) <= 8 {
+		return fmt.Sprint(l)
+	}
+	return fmt.Sprintf("%v ... (%d in all)", l[:8], len(l))
+}
+
 func keysOf(m map[string]expPoint) []string {
 	out := make([]string, 0, len(m))
 	for k := range m {
@@ -832,14 +968,14 @@ func keysOf(m map[string]expPoint) []string {
 	return out
 }
 
-const ruleCommon = "history = >=3 cycles of synchronous measurements / callback observations over a pool of attribute sets (structured a,b,c sets, the overflow set itself and near misses), then Collect on one or two ManualReaders (delta / cumulative / mixed; a reader may skip a cycle; about half of the readers carry an aggregation selector answering per kind with the default / nil / AggregationDefault / drop / exponential / other buckets / sum / last value as far as the kind accepts it); limit from {unset,1,2,3,5,10} (rarely 0/-1); exactly summable values k*2^e; " +
+const ruleCommon = "history = >=3 cycles of synchronous measurements / callback observations over a pool of attribute sets (structured a,b,c sets, the overflow set itself and near misses), then Collect on one or two ManualReaders (delta / cumulative / mixed; a reader may skip a cycle; about half of the readers carry an aggregation selector answering per kind with the default / nil / AggregationDefault / drop / exponential / other buckets / sum / last value as far as the kind accepts it); limit from the environment: unset, or an integer L (mostly 1,2,3,5,10, any of 1..12, sometimes 8..33, rarely unreachable) written plainly / zero-padded / with a plus sign, rarely a non-positive integer in any spelling or a value that is no integer (both: no limit); pool sizes biased to L-1, L, L+1; exactly summable values k*2^e; " +
 	"non-trivial = in some stream more than L distinct filtered sets arrive within one lifetime, or an attribute filter merges >= 2 distinct sets, or >= 2 views match one instrument; distinct = distinct case encodings"
 
 func TestLimitModel(t *testing.T) {
 	vk.Run(t, vk.Spec[Case]{
 		Property: "C12", Check: "limit_model",
 		Rule:  "1-2 instruments of any kind / number type, optionally one wildcard allow/deny-key filter view, pools of up to 30 sets, up to 40 measurements and 14 observations per cycle; " + ruleCommon,
-		Quick: 15000, Thorough: 200000,
+		Quick: 13000, Thorough: 200000,
 		Gen: genLimit, Run: run,
 	})
 	t.Log(statLine())
@@ -849,7 +985,7 @@ func TestViewsModel(t *testing.T) {
 	vk.Run(t, vk.Spec[Case]{
 		Property: "C12", Check: "views_model",
 		Rule:  "1-4 instruments (often twins differing in one identifying field), 0-6 views selected by exact name / wildcard pattern / kind / unit / combinations: attribute filters, renames (name, unit), re-aggregations (sum<->histogram, exponential, explicit AggregationDefault{} - biased towards instruments whose kind a reader re-aggregates or drops), drop, several views per instrument, verbatim duplicate views, two instruments renamed to one name (same or different identity), kind/unit-wide renames; conflicting duplicate definitions of one stream are removed; pools of up to 12 sets; " + ruleCommon,
-		Quick: 15000, Thorough: 200000,
+		Quick: 13000, Thorough: 200000,
 		Gen: genViewsCase, Run: run,
 	})
 	t.Log(statLine())
